@@ -69,7 +69,8 @@ def cmp_facts(fn, target_block, _depth=0):
         while n[0] == 'unop' and n[1] == 'Not' and len(n[2]) == 1:
             n = next(iter(n[2]))
             neg = not neg
-        if n[0] != 'binop' or n[1] not in ('Lt', 'Le', 'Gt', 'Ge', 'Eq', 'Ne'):
+        is_cmp = n[0] == 'binop' and n[1] in ('Lt', 'Le', 'Gt', 'Ge', 'Eq', 'Ne')
+        if not is_cmp and only is None:
             continue
         if set(tmap.keys()) == {'0'}:
             f_t, t_t = tmap['0'], other
@@ -83,9 +84,11 @@ def cmp_facts(fn, target_block, _depth=0):
             if only is not None and val != only:
                 continue
             if target_block not in fn.reachable(0, removed=frozenset([(b, edge_t)])):
-                facts.append((n[2], n[3], set(REL[(n[1], val != neg)]), b))
+                if is_cmp:
+                    facts.append((n[2], n[3], set(REL[(n[1], val != neg)]), b))
                 if only is not None and _depth < 3:
-                    d = _flag_def_block(fn, b)
+                    fi = fn.flag_info(b)
+                    d = fi[1] if fi is not None else _flag_def_block(fn, b)
                     if d is not None:
                         facts += [(x, y, r, b) for (x, y, r, _b) in cmp_facts(fn, d, _depth + 1)]
     return facts
